@@ -553,7 +553,7 @@ func (r *runner) mainStream(nprog int) int {
 		out.Sample(map[string]string{"option_not_run_alone": name, "why": why})
 	}
 	var plan []plannedUnit
-	nProg, perProg := 18, 2
+	nProg, perProg := 16, 2
 	if r.tier == "thorough" {
 		nProg, perProg = 200, 1
 	}
@@ -571,6 +571,12 @@ func (r *runner) mainStream(nprog int) int {
 		cfg := mainConfig(fast)
 		p := idlgen.Generate(rng, cfg)
 		p = stressRename(rng, p, rng.Intn(3), out.Count)
+		if fast {
+			p = requiredCount(rng, p, out.Count)
+		}
+		if !fast && rng.Chance(30) {
+			p = collidePackages(rng, p, out.Count)
+		}
 		p.Stats(out.Count)
 		if fast {
 			plan = append(plan, plannedUnit{p, "fastgo", nil, true, fmt.Sprintf("prog%d", i)})
@@ -611,6 +617,59 @@ func (r *runner) mainStream(nprog int) int {
 		mkFile("a.thrift", "pa", []int{1, 2}, strct("S", fd(1, "x", tRef(1, "T")), fd(2, "y", tRef(2, "T")))),
 		mkFile("b.thrift", "x.fmt0", none, strct("T")),
 		mkFile("c.thrift", "y.fmt", none, strct("T"))}}, "go", nil, true, "fixed-pair-imports"})
+	// an IDL the root never includes, reached only through typedefs / a constant / an extended service of a file it does
+	// include, whose package name equals another import of the root (acme.common vs partner.common): the alias the
+	// import block declares (common0) must be the qualifier of the FIRST reference too (Scope.includeIDL)
+	plan = append(plan, plannedUnit{&Program{Files: []*File{
+		mkFile("order.thrift", "acme.order", []int{1, 2},
+			strct("Order", fd(1, "meta", tRef(1, "Meta")), fd(2, "items", tRef(2, "Items")), fdOpt(3, "featured", tRef(2, "Featured")), fdOpt(4, "one", tRef(2, "One"))),
+			svc("OrderService", nil, &idlgen.Function{Name: "place", Ret: tRef(0, "Order"), Args: []*idlgen.Field{fd(1, "meta", tRef(1, "Meta")), fd(2, "items", tRef(2, "Items"))}})),
+		mkFile("common.thrift", "partner.common", none, strct("Meta", fd(1, "id", i32))),
+		mkFile("catalog.thrift", "acme.catalog", []int{3},
+			tdef("Items", tList(tRef(3, "Item"))), tdef("Featured", tMap(tRef(3, "Kind"), tRef(3, "Item"))), tdef("One", tRef(3, "Item"))),
+		mkFile("catalog_types.thrift", "acme.common", none, enum("Kind", "A", "B"), strct("Item", fd(1, "sku", str)))}}, "go", nil, true, "fixed-late-include"})
+	// typedefs of ANOTHER file whose element types are local to that file (list<Point>, map<string, Path>, set<Unit>), two
+	// levels deep, and a literal of a foreign struct that nests a struct local to the foreign file: every element type
+	// must carry the foreign package's qualifier in the root file (Resolver.getTypeName)
+	plan = append(plan, plannedUnit{&Program{Files: []*File{
+		mkFile("track.thrift", "demo.track", []int{1},
+			strct("Track", fd(1, "start", tRef(1, "Point")), fd(2, "path", tRef(1, "Path")), fdOpt(3, "routes", tRef(1, "Routes")), fd(4, "units", tRef(1, "Units"))),
+			cdef("UnitSegment", tRef(1, "Segment"), cMap(cStr("a"), cMap(cStr("x"), cInt("0")), cStr("b"), cMap(cStr("x"), cInt("1")))),
+			svc("Tracker", nil, &idlgen.Function{Name: "trace", Ret: tRef(1, "Path"), Args: []*idlgen.Field{fd(1, "from", tRef(1, "Point")), fd(2, "via", tRef(1, "Routes"))}})),
+		mkFile("geo.thrift", "demo.geo", none, enum("Unit", "METER", "FOOT"), strct("Point", fd(1, "x", i32), fdOpt(2, "unit", tRef(1, "Unit"))),
+			strct("Segment", fd(1, "a", tRef(1, "Point")), fd(2, "b", tRef(1, "Point"))),
+			tdef("Path", tList(tRef(1, "Point"))), tdef("Routes", tMap(str, tRef(1, "Path"))), tdef("Units", &Type{Kind: idlgen.Set, Elem: tRef(1, "Unit")}))}}, "go", nil, true, "fixed-foreign-typedef-elements"})
+	// the same shape under fastgo (its k-file has an import block of its own)
+	plan = append(plan, plannedUnit{&Program{Files: []*File{
+		mkFile("order.thrift", "acme.order", []int{1, 2}, strct("Order", fd(1, "meta", tRef(1, "Meta")), fd(2, "items", tRef(2, "Items")))),
+		mkFile("common.thrift", "partner.common", none, strct("Meta", fd(1, "id", i32))),
+		mkFile("catalog.thrift", "acme.catalog", []int{3}, tdef("Items", tList(tRef(3, "Item")))),
+		mkFile("catalog_types.thrift", "acme.common", none, strct("Item", fd(1, "sku", str)))}}, "fastgo", nil, true, "fixed-late-include-fastgo"})
+	// an include that SHARES the includer's go namespace, used for extends, field types, a typedef and a constant:
+	// nothing of it may be qualified (ServicePrefix and getTypeName compare go namespaces, not files)
+	plan = append(plan, plannedUnit{&Program{Files: []*File{
+		mkFile("api.thrift", "acme.api", []int{1, 2},
+			strct("Req", fd(1, "h", tRef(1, "Header")), fd(2, "k", tRef(1, "Kind"))), tdef("H2", tRef(1, "Header")),
+			cdef("DefaultKind", tRef(1, "Kind"), cId("health.Kind.A")), cdef("Limit", i32, cId("health.MaxLimit")),
+			svc("Api", &idlgen.NamedRef{File: 1, Name: "Health"}, fnVoid("call", []*idlgen.Field{fd(1, "r", tRef(0, "Req"))}, nil)),
+			svc("Audit", &idlgen.NamedRef{File: 2, Name: "Base"}, fnVoid("log", nil, nil))),
+		mkFile("health.thrift", "acme.api", none, enum("Kind", "A", "B"), strct("Header", fd(1, "id", i32)), cdef("MaxLimit", i32, cInt("10")),
+			svc("Health", nil, fnVoid("ping", nil, nil))),
+		mkFile("base.thrift", "acme.base", none, svc("Base", nil, fnVoid("version", nil, nil)))}}, "go", nil, true, "fixed-same-namespace-include"})
+	// fastgo keeps the seen-bits of required fields in a bitset of 8-bit words: every count around a word boundary
+	{
+		var defs []interface{}
+		for _, n := range []int{7, 8, 9, 15, 16, 17, 31, 32, 33, 63, 64, 65} {
+			var fs []*idlgen.Field
+			for i := 1; i <= n; i++ {
+				f := fd(i, fmt.Sprintf("f%d", i), i32)
+				f.Req = idlgen.Required
+				fs = append(fs, f)
+			}
+			defs = append(defs, strct(fmt.Sprintf("R%d", n), fs...))
+		}
+		plan = append(plan, plannedUnit{&Program{Files: []*File{mkFile("a.thrift", "pa", none, defs...)}}, "fastgo", nil, true, "fixed-required-counts"})
+	}
 	units := make([]batch.Unit, len(plan))
 	for i, pu := range plan {
 		units[i] = batch.Unit{Prog: pu.prog, Backend: pu.backend, Options: pu.opts, Recurse: pu.recurse, Tag: pu.tag}
